@@ -467,7 +467,7 @@ def oracle_files(case, obs):
 CHECK = Check(
     id="C09",
     title="simphenotype implements the documented linear model and case/control threshold",
-    theorems=["C09.cases_count", "C09.cases_dominate", "C09.replications_disjoint", "C09.replications_cover", "C09.names_distinct", "C09.absent_effect_adds_nothing", "C09.found_effect_contributes_its_own_dosage", "C09.effect_order_irrelevant", "C09.absent_effect_misattributed_before_fix", "C09R.standardize_mean_zero", "C09R.standardize_var_one", "C09R.noise_default", "C09R.noise_given", "C09R.noise_zero_h1", "C09R.noise_nonneg"],
+    theorems=["C09.cases_count", "C09.cases_dominate", "C09.replications_disjoint", "C09.replications_cover", "C09.names_distinct", "C09.absent_effect_adds_nothing", "C09.found_effect_contributes_its_own_dosage", "C09.effect_order_irrelevant", "C09.variable_named_twice_adds_both_betas", "C09.absent_effect_misattributed_before_fix", "C09R.standardize_mean_zero", "C09R.standardize_var_one", "C09R.noise_default", "C09R.noise_given", "C09R.noise_zero_h1", "C09R.noise_nonneg"],
     imports=("HapModel", "HapReal"),
     build_targets=("HapModel", "HapReal"),
     sections=[
@@ -488,7 +488,7 @@ CHECK = Check(
         ),
         Section(
             name="simulate_pt_files",
-            theorems=["C09.cases_count", "C09.absent_effect_adds_nothing", "C09.found_effect_contributes_its_own_dosage", "C09.effect_order_irrelevant", "C09.absent_effect_misattributed_before_fix"],
+            theorems=["C09.cases_count", "C09.absent_effect_adds_nothing", "C09.found_effect_contributes_its_own_dosage", "C09.effect_order_irrelevant", "C09.variable_named_twice_adds_both_betas", "C09.absent_effect_misattributed_before_fix"],
             gen=gen_files,
             impl=impl_files,
             model_req=model_req_files,
